@@ -103,12 +103,14 @@ def seeds():
           E("OM[", 1030, struct.pack("<qi", 2, 1)), E("OM]", 1040, struct.pack("<qi", 2, 1)),
           E("OM]", 1050, struct.pack("<qi", 1, 1)), E("OHe", 1060)]
     out.append(("marks", [("loom.node1.x/proc.1001/thread.101", m, ev)]))
-    # S3: three streams, two looms, thread creation, remote affinity
-    m1 = obs.thread_meta(101, 1001, "node1.x", app_id=1, cpus=[(0, 10), (1, 11)], rank=0, nranks=2)
+    # S3: three streams, two looms, thread creation, remote affinity; two streams of the same process
+    # carry the same mark definitions (the second goes through the "already defined" paths)
+    mk = {"ovni.mark.1.title": "phase", "ovni.mark.1.chan_type": "stack", "ovni.mark.1.labels": {"1": "one"}}
+    m1 = obs.thread_meta(101, 1001, "node1.x", app_id=1, cpus=[(0, 10), (1, 11)], rank=0, nranks=2, extra=mk)
     e1 = [E("OHx", 1000, obs.i32(0, 101) + _tag(7)), E("OHC", 1010, obs.i32(1) + _tag(8)),
           E("OAr", 1040, obs.i32(0, 102)), E("OAr", 1045, obs.i32(1, 102)), E("OB.", 1050),
           E("OHe", 1100)]
-    m2 = obs.thread_meta(102, 1001, "node1.x", app_id=1, rank=0, nranks=2)
+    m2 = obs.thread_meta(102, 1001, "node1.x", app_id=1, rank=0, nranks=2, extra=mk)
     e2 = [E("OHx", 1020, obs.i32(1, 101) + _tag(8)), E("OHp", 1030), E("OHr", 1070), E("OHe", 1090)]
     m3 = obs.thread_meta(201, 2001, "node2.x", app_id=2, cpus=[(0, 20)], rank=1, nranks=2)
     e3 = [E("OHx", 1005, obs.i32(0, 201) + _tag(7)), E("OHe", 1095)]
@@ -562,7 +564,7 @@ def gen_sweep(ck, rng, tier, sd, lines):
         d = seed_files(s)[0][2]
         evs = obs.decode(d)
         jpos = [i for i, e in enumerate(evs) if e["jumbo"]]
-        full_at = set(jpos[:1] + [0] if tier == "quick" else range(len(evs)))
+        full_at = set(jpos[:1] + [0] if tier == "quick" else jpos + [0, len(evs) - 1])
         for i, e in enumerate(evs):
             o = e["off"]
             pre, post = d[:o], d[o + e["size"]:]
@@ -739,12 +741,17 @@ def gen_meta(ck, rng, tier, sd):
         paths = _paths(meta)
         for p in paths:
             ps = ".".join(str(x) for x in p)
-            if n != "marks" and ps in keys_seen:
+            if n == "tasks" and ps in keys_seen:
+                continue
+            # the multi-stream seed exercises the merge of definitions made by several streams
+            merge = n == "multi"
+            if merge and not any(ps.startswith(x) for x in ("ovni.mark", "ovni.loom_cpus", "ovni.rank", "ovni.nranks",
+                                                            "ovni.app_id", "ovni.loom", "ovni.pid", "ovni.tid")):
                 continue
             keys_seen.add(ps)
             out.append(Inp("meta-delete", "delete %s" % ps, n,
                            with_json(s, json.dumps(_set(meta, p, None, delete=True)).encode())))
-            for vn, v in JVALS:
+            for vn, v in (rng.sample(JVALS, 8) if merge and tier == "quick" else JVALS):
                 # ovnidump, ovnitop and ovnisort share stream_load (parse + "version") and read no other
                 # key: in the quick tier the three of them run on "version" and on a sample of the rest
                 sub = None
@@ -960,17 +967,22 @@ def tlc_runs(ck, tier):
     jobs = [("guarded", "Decoder_Guarded.cfg" if tier == "quick" else "Decoder_Guarded_Thorough.cfg")]
     jobs += [("cur:" + inv, "Decoder_Cur_%s.cfg" % inv) for inv in INVS]
     jobs += [("export", "Decoder_Cur_Export.cfg" if tier == "quick" else "Decoder_Cur_Export_Thorough.cfg")]
-    w = 4 if tier == "quick" else 8
 
-    def one(job):
+    def one(job, w):
         name, cfg = job
-        return core.tlc("Decoder", cfg, workers=(w if name != "guarded" or tier == "quick" else core.NCPU),
-                        timeout=3000, heap="12g" if name in ("guarded", "export") else "2g")
+        return core.tlc("Decoder", cfg, workers=w, timeout=3000,
+                        heap="12g" if name in ("guarded", "export") else "2g")
 
     if tier == "quick":
-        rs = core.pmap(one, jobs, threads=True, workers=len(jobs))
+        # the two larger runs side by side, then the six refutations (about 1 s of work each) side by side
+        big = [j for j in jobs if j[0] in ("guarded", "export")]
+        small = [j for j in jobs if j not in big]
+        rb = core.pmap(lambda j: one(j, 8), big, threads=True, workers=2)
+        rsm = core.pmap(lambda j: one(j, 2), small, threads=True, workers=len(small))
+        got = dict(zip([j[0] for j in big + small], rb + rsm))
+        rs = [got[j[0]] for j in jobs]
     else:
-        rs = [one(j) for j in jobs]
+        rs = [one(j, core.NCPU) for j in jobs]
     refuted = []
     lines = None
     for (name, cfg), r in zip(jobs, rs):
@@ -991,6 +1003,8 @@ def tlc_runs(ck, tier):
             if r.violated:
                 raise core.MachineryError("export run reported %s" % r.violated)
             lines = [o for tg, o in r.lines if tg == "TR" and isinstance(o, dict)]
+            # TLC prints in the order its workers get there: make the choice of representatives reproducible
+            lines.sort(key=lambda o: json.dumps(o, sort_keys=True))
     if not lines:
         raise core.MachineryError("Decoder export is empty")
     return lines, refuted
